@@ -11,6 +11,7 @@ import (
 
 var checks = map[string]func(run *ev.Run){
 	"C12": difflab.CheckC12,
+	"C13": difflab.CheckC13,
 	"C14": difflab.CheckC14,
 	"C15": difflab.CheckC15,
 }
